@@ -4,14 +4,18 @@ package main
 
 import (
 	"fmt"
+	"math/big"
 	"math/rand"
 	"strings"
 )
 
 type Gen struct {
-	r      *rand.Rand
-	keys   []string
-	hostile bool // include CR/LF/NUL/0xFF in values
+	r       *rand.Rand
+	keys    []string
+	hostile bool   // include CR/LF/NUL/0xFF in values
+	focus   string // when set, most key choices of the current history go to this key
+	bfType  string // BITFIELD: type and offsets the current history concentrates on
+	bfOffs  []string
 }
 
 func newGen(seed int64) *Gen {
@@ -19,7 +23,47 @@ func newGen(seed int64) *Gen {
 }
 
 func (g *Gen) pick(ss ...string) string { return ss[g.r.Intn(len(ss))] }
-func (g *Gen) key() string             { return g.keys[g.r.Intn(len(g.keys))] }
+func (g *Gen) key() string {
+	if g.focus != "" && g.r.Intn(100) < 60 {
+		return g.focus
+	}
+	return g.keys[g.r.Intn(len(g.keys))]
+}
+
+// newHistory re-draws the per-history concentration points
+func (g *Gen) newHistory() {
+	g.focus = ""
+	if g.r.Intn(4) != 0 {
+		g.focus = g.keys[g.r.Intn(len(g.keys))]
+	}
+	g.bfType = g.pick("u1", "u4", "u8", "i8", "i5", "u16", "i16", "i32", "u63", "i64", "i64", "u63", "u7", "i3")
+	g.bfOffs = []string{g.pick("0", "1", "3", "7", "8", "13", "#0", "#1", "#2", "20"), g.pick("0", "5", "#1", "9")}
+}
+
+// boundary values of a BITFIELD type, as decimal text
+func bfExtremes(ty string) []string {
+	var w int
+	fmt.Sscanf(ty[1:], "%d", &w)
+	signed := ty[0] == 'i'
+	var lo, hi *big.Int
+	one := big.NewInt(1)
+	if signed {
+		hi = new(big.Int).Sub(new(big.Int).Lsh(one, uint(w-1)), one)
+		lo = new(big.Int).Neg(new(big.Int).Lsh(one, uint(w-1)))
+	} else {
+		hi = new(big.Int).Sub(new(big.Int).Lsh(one, uint(w)), one)
+		lo = big.NewInt(0)
+	}
+	out := []string{"0", "1", "-1", "2", lo.String(), hi.String(), new(big.Int).Sub(hi, one).String(), new(big.Int).Add(lo, one).String()}
+	max64 := new(big.Int).Sub(new(big.Int).Lsh(one, 63), one)
+	min64 := new(big.Int).Neg(new(big.Int).Lsh(one, 63))
+	for _, v := range []*big.Int{new(big.Int).Add(hi, one), new(big.Int).Sub(lo, one), new(big.Int).Neg(hi), max64, min64} {
+		if v.Cmp(max64) <= 0 && v.Cmp(min64) >= 0 {
+			out = append(out, v.String())
+		}
+	}
+	return out
+}
 func (g *Gen) chance(p float64) bool   { return g.r.Float64() < p }
 
 // random case of a keyword: the command table and option keywords are case-insensitive
@@ -478,22 +522,30 @@ func init() {
 		for i := 0; i < n; i++ {
 			ty := g.pick("u1", "u4", "u8", "i8", "i5", "u16", "i16", "i32", "u63", "i64", "u7", "i3")
 			off := g.pick("0", "1", "3", "7", "8", "13", "#0", "#1", "#2", "20")
-			if ro || g.chance(0.35) {
+			if g.bfType != "" && g.chance(0.7) {
+				ty = g.bfType
+				off = g.bfOffs[g.r.Intn(len(g.bfOffs))]
+			}
+			if ro || g.chance(0.3) {
 				a = append(a, g.kw("GET"), ty, off)
 				continue
 			}
 			// the documented grammar puts OVERFLOW directly in front of a write operation
-			if g.chance(0.5) {
+			if g.chance(0.6) {
 				a = append(a, g.kw("OVERFLOW"), g.kw(g.pick("WRAP", "SAT", "FAIL")))
 			}
-			if g.chance(0.5) {
-				v := g.pick(g.num(), "255", "256", "-129", "127", "128")
+			ex := bfExtremes(ty)
+			v := ex[g.r.Intn(len(ex))]
+			if g.chance(0.2) {
+				v = g.num()
+			}
+			if g.chance(0.45) {
 				if ty[0] == 'u' && v[0] == '-' {
 					v = v[1:] // a negative value for an unsigned field is outside the compared domain (DESIGN.md, C18)
 				}
 				a = append(a, g.kw("SET"), ty, off, v)
 			} else {
-				a = append(a, g.kw("INCRBY"), ty, off, g.pick(g.num(), "255", "-128", "1", "1", "-1"))
+				a = append(a, g.kw("INCRBY"), ty, off, v)
 			}
 		}
 		return a
